@@ -196,6 +196,8 @@ def evaluate(ctx, items, wd):
                 ctx.dist["hyp-" + rep["hyp"]] += 1
                 if hyp:
                     if rep["model"] != oc:
+                        if not _reproducible(ctx, sc, wd, oc):
+                            continue
                         ctx.mismatch(sc, r["out"], rep["model"])
                     if (rep["model"] == "0") != (rep["spec"] == "0"):
                         ctx.inconsistent(sc, rep["model"], rep["spec"])
@@ -206,6 +208,18 @@ def evaluate(ctx, items, wd):
                         continue
         if py is not None and (oc == "0") != (py == "0"):
             ctx.violation(sc, r["out"], py, cls=None, what=WHAT + " (python oracle)")
+
+
+def _reproducible(ctx, sc, wd, oc) -> bool:
+    """re-run the implementation on a disagreeing scenario: a disagreement that does not reproduce is recorded as a
+    note (non-repeatable behaviour of the implementation or of the machine is C19's subject), not as a mismatch"""
+    again = cs.outcome_class(cs.run_file_scenario(sc, wd, junit=False)["out"])
+    if again != oc:
+        ctx.dist["impl-nonreproducible"] += 1
+        ctx.notes.append(f"implementation outcome not reproducible on immediate re-run: first={oc} second={again} "
+                         f"options={cs.option_argv(sc)}")
+        return False
+    return True
 
 
 def _violates(sc, wd) -> bool:
